@@ -4,6 +4,7 @@ import (
 	"fmt"
 	"net/http"
 	"net/http/httptest"
+	"net/url"
 	"sort"
 	"strings"
 
@@ -201,9 +202,13 @@ func c15Exec(c Sx) (out Sx) {
 				pm[p.List[0].Str()] = p.List[1].Str()
 			}
 			b.Params(pm)
-			em := rux.M{}
+			// query arguments of the builder style: url.Values, every key with two values (both must arrive, in order)
+			uv := url.Values{}
 			for _, p := range extra {
-				em[p.List[0].Str()] = p.List[1].Str()
+				uv[p.List[0].Str()] = []string{p.List[1].Str(), p.List[1].Str() + "~2"}
+			}
+			if len(uv) > 0 {
+				b.Queries(uv)
 			}
 			// the same builder has been used for the other routes of the table before: a builder may be reused
 			for j := range rr.regs {
@@ -217,7 +222,6 @@ func c15Exec(c Sx) (out Sx) {
 				}
 			}
 			uu := rr.r.GetRoute(name).ToURL(b)
-			_ = em
 			path, rawq, built = uu.Path, uu.RawQuery, uu
 		}
 		// decoded query pairs
@@ -231,7 +235,9 @@ func c15Exec(c Sx) (out Sx) {
 			}
 			sort.Strings(keys)
 			for _, k := range keys {
-				q = append(q, L(S(k), S(vs.Get(k))))
+				for _, v := range vs[k] {
+					q = append(q, L(S(k), S(v)))
+				}
 			}
 		}
 		method := "GET"
